@@ -57,6 +57,19 @@ theorem bfs_shortest (adj : Nat → List Nat) (n s : Nat) (hs : s < n) (hadj : B
     ∀ x ∈ bfsd adj n s, Walk adj s x.1 x.2 ∧ ∀ k, Walk adj s x.1 k → x.2 ≤ k :=
   (bfs_correct adj s n hs hadj).2.2.2.1
 
+
+/-- the four traversal statements on a molecule's own bond list: the hypotheses of the theorems above are
+met by every well-formed molecular graph (`neighbors` is bounded and symmetric) -/
+theorem bfs_on_molecule {NA EA : Type} (g : LGraph NA EA) (hwf : g.WF) (s : Nat) (hs : s < g.n) :
+    ((bfsd g.adj g.n s).map Prod.fst).Nodup ∧ s ∉ (bfsd g.adj g.n s).map Prod.fst ∧
+    (∀ v, v ≠ s → (v ∈ (bfsd g.adj g.n s).map Prod.fst ↔ Reach g.adj s v)) ∧
+    (bfsd g.adj g.n s).Pairwise (fun x y => x.2 ≤ y.2) ∧
+    (∀ x ∈ bfsd g.adj g.n s, Walk g.adj s x.1 x.2 ∧ ∀ k, Walk g.adj s x.1 k → x.2 ≤ k) := by
+  have hadj : Bounded g.adj g.n := neighbors_bounded hwf
+  exact ⟨(bfs_nodup g.adj g.n s hs hadj).1, (bfs_nodup g.adj g.n s hs hadj).2,
+    fun v hv => bfs_complete g.adj g.n s hs hadj v hv, bfs_monotone g.adj g.n s hs hadj,
+    bfs_shortest g.adj g.n s hs hadj⟩
+
 /-! ## traversal with a direction -/
 
 theorem bounded_delVertex {adj : Nat → List Nat} {n : Nat} (hadj : Bounded adj n) (s : Nat) :
